@@ -1,0 +1,54 @@
+//go:build verif
+
+// Verification hook for property C09 (add-only, compiled only with -tags verif): read-only
+// access to the unexported parts of a compiled rule that the correspondence harness translates
+// into its model (action list in execution order, operator, targets).
+
+package corazawaf
+
+import "github.com/corazawaf/coraza/v3/experimental/plugins/plugintypes"
+
+// VerifC09Action is one entry of Rule.actions.
+type VerifC09Action struct {
+	Name     string
+	Type     plugintypes.ActionType
+	Function plugintypes.Action
+}
+
+// VerifC09Target is one entry of Rule.variables.
+type VerifC09Target struct {
+	Name          string
+	KeyStr        string
+	Count         bool
+	HasRx         bool
+	NumExceptions int
+}
+
+// VerifC09Rule is what the harness reads from a compiled rule (one link of a chain).
+type VerifC09Rule struct {
+	Actions            []VerifC09Action
+	Targets            []VerifC09Target
+	HasOperator        bool
+	OpFunction         string
+	OpData             string
+	OpNegation         bool
+	NumTransformations int
+}
+
+// VerifC09Dump returns the unexported content of r.
+func VerifC09Dump(r *Rule) VerifC09Rule {
+	d := VerifC09Rule{NumTransformations: len(r.transformations)}
+	for _, a := range r.actions {
+		d.Actions = append(d.Actions, VerifC09Action{Name: a.Name, Type: a.Function.Type(), Function: a.Function})
+	}
+	for _, v := range r.variables {
+		d.Targets = append(d.Targets, VerifC09Target{Name: v.Variable.Name(), KeyStr: v.KeyStr, Count: v.Count, HasRx: v.KeyRx != nil, NumExceptions: len(v.Exceptions)})
+	}
+	if r.operator != nil {
+		d.HasOperator = true
+		d.OpFunction = r.operator.Function
+		d.OpData = r.operator.Data
+		d.OpNegation = r.operator.Negation
+	}
+	return d
+}
